@@ -7,10 +7,11 @@ import Enc.Lemmas.ProtoNamedSpec
   * `canonical_ov`     `canonical t (ov t v) = canonical t v` (also `ovF`; `canonTy_ov / canonTy_ovF / canonTyFields_ov`)  (every type)
   * `canonical_ob`     `opaqueCanon t → canonical (ob t) v = canonical t v`
   * `canonical_ob_ov`  `opaqueCanon t → canonical (ob t) (ov t v) = canonical t v`
-    The last two are FALSE without a side condition (`canonical_ob_counterexample`): for `v ≠ .str []` the spec's `canonTy` falls
-    through from the opaque-leaf case to `| .named _ t, v => canonTy t v` and compares the leaf like its underlying type.
-    `opaqueCanon t` (every opaque leaf `.named "RawMessage" u` has `∀ v ≠ .str [], canonTy u v = v`) is exact for `canonTy`
-    (`canonTy_ob_iff`); `opaquePlain t = true` is a decidable sufficient form (`u` = `[]byte`, `.bytes`, scalar, string, array …).
+    UPDATE: `Spec.Protobuf.canonTy` now has a catch-all case for the opaque leaf (`| .named "RawMessage" _, v => v`); the side
+    condition holds for every type (`opaqueCanon_all`; `LeafId` is `True`), the unconditional forms are `canonical_ob_any` /
+    `canonical_ob_ov_any`. `opaqueCanon` / `opaquePlain` are kept only so that the older `_plain` theorems still read as before.
+    (Before the repair `canonTy` fell through to `| .named _ t, v => canonTy t v` for `v ≠ .str []` and compared the leaf like its
+    underlying type; `canonical_ob_former_counterexample` is the old counterexample, now an instance of the theorem.)
 -/
 set_option linter.unusedSimpArgs false
 set_option linter.unusedVariables false
@@ -25,8 +26,9 @@ open Enc.Lemmas.ProtoNamed (deref_named unname_named wrapPtr_named unwrapPtr_nam
 theorem canonTy_rm_empty (u : Ty) : canonTy (.named "RawMessage" u) (.str []) = .nil := by
   simp [canonTy]
 
-theorem canonTy_rm (u : Ty) (v : Val) (h : v ≠ .str []) : canonTy (.named "RawMessage" u) v = canonTy u v := by
-  rw [canonTy]; intro e _; exact absurd e h
+/-- an opaque leaf is compared as the byte string it is (`Spec.Protobuf.canonTy`: the catch-all case for the opaque leaf) -/
+theorem canonTy_rm (u : Ty) (v : Val) (h : v ≠ .str []) : canonTy (.named "RawMessage" u) v = v := by
+  rw [canonTy]; intro e; exact absurd e h
 
 theorem canonTy_bytes (v : Val) (h : v ≠ .str []) : canonTy .bytes v = v := by
   cases v with
@@ -36,7 +38,7 @@ theorem canonTy_bytes (v : Val) (h : v ≠ .str []) : canonTy .bytes v = v := by
 theorem canonTy_nil : ∀ t : Ty, canonTy t .nil = .nil
   | .named n t => by
     by_cases h : n = "RawMessage"
-    · subst h; rw [canonTy_rm _ _ (by simp)]; exact canonTy_nil t
+    · subst h; exact canonTy_rm _ _ (by simp)
     · rw [canonTy_named n t _ h]; exact canonTy_nil t
   | .ptr t => by simp [canonTy]
   | .slice t => by simp [canonTy]
@@ -146,14 +148,12 @@ theorem canonical_ovF (t : Ty) (v : Val) : Spec.Protobuf.canonical t (ovF t v) =
 
 /-! ## 2. the type relabelling and the comparison form
 
-`canonTy (ob t) v = canonTy t v` is FALSE for arbitrary `t`: for `v ≠ .str []` the definition of `canonTy` falls through from the
-opaque-leaf case to `| .named _ t, v => canonTy t v`, i.e. it compares an opaque leaf like its UNDERLYING type `u`, while `.bytes`
-leaves such a value alone. Counterexample: `t = .named "RawMessage" (.struct .nil)`, `v = .struct (.cons (.int 0) .nil)`
-(`canonical t v = .struct .nil`, `canonical (ob t) v = v`), see `canonical_ob_counterexample` below. The statement holds exactly
-when the underlying type of every opaque leaf is compared like a byte string (`LeafId`; true for `.bytes`, `[]uint8`, scalars, …). -/
+HISTORICAL: before the repair of `Spec.Protobuf.canonTy` (catch-all case for the opaque leaf) `canonTy (ob t) v = canonTy t v` was
+false for arbitrary `t` (an opaque leaf was compared like its UNDERLYING type on values other than `.str []`) and needed the side
+condition `opaqueCanon` below. Now `LeafId` is `True` and `opaqueCanon_all` discharges it for every type. -/
 
-/-- away from the empty byte string the comparison form of `u` is the identity (as for `.bytes`) -/
-def LeafId (u : Ty) : Prop := ∀ v, v ≠ .str [] → canonTy u v = v
+/-- (formerly: away from the empty byte string the comparison form of `u` is the identity) — no condition is needed any more -/
+def LeafId (_u : Ty) : Prop := True
 
 mutual
 /-- every opaque leaf (not below arrays) has an underlying type that is compared like a byte string -/
@@ -185,7 +185,7 @@ theorem canonTy_ob : ∀ (t : Ty), opaqueCanon t → ∀ v : Val, canonTy (ob t)
       simp only [ob, if_true]
       by_cases hv : v = .str []
       · subst hv; simp [canonTy]
-      · rw [canonTy_bytes v hv, canonTy_rm t v hv, h v hv]
+      · rw [canonTy_bytes v hv, canonTy_rm t v hv]
     · simp only [opaqueCanon, hn, if_false] at h
       simp only [ob, hn, if_false]
       rw [canonTy_named n _ v hn, canonTy_named n _ v hn]; exact canonTy_ob t h v
@@ -239,14 +239,34 @@ theorem canonical_ob_ov (t : Ty) (h : opaqueCanon t) (v : Val) :
     Spec.Protobuf.canonical (ob t) (ov t v) = Spec.Protobuf.canonical t v := by
   rw [canonical_ob t h, canonical_ov]
 
-/-- the unconditional statements `∀ t v, canonical (ob t) v = canonical t v` and
-`∀ t v, canonical (ob t) (ov t v) = canonical t v` are false -/
-theorem canonical_ob_counterexample :
+mutual
+/-- since the repair of `Spec.Protobuf.canonTy` (catch-all case for the opaque leaf) the side condition holds for every type -/
+theorem opaqueCanon_all : ∀ t : Ty, opaqueCanon t
+  | .named n t => by
+    by_cases hn : n = "RawMessage"
+    · subst hn; simp only [opaqueCanon, if_true]; trivial
+    · simp only [opaqueCanon, hn, if_false]; exact opaqueCanon_all t
+  | .ptr t => by simp only [opaqueCanon]; exact opaqueCanon_all t
+  | .slice t => by simp only [opaqueCanon]; exact opaqueCanon_all t
+  | .map k w => by simp only [opaqueCanon]; exact ⟨opaqueCanon_all k, opaqueCanon_all w⟩
+  | .struct fs => by simp only [opaqueCanon]; exact opaqueCanonFields_all fs
+  | .bool | .int _ | .f32 | .f64 | .str | .bytes | .any | .arr _ _ => by simp only [opaqueCanon]
+theorem opaqueCanonFields_all : ∀ fs : Fields, opaqueCanonFields fs
+  | .nil => by simp only [opaqueCanonFields]
+  | .cons _ _ _ t rest => by simp only [opaqueCanonFields]; exact ⟨opaqueCanon_all t, opaqueCanonFields_all rest⟩
+end
+
+/-- **the comparison form does not see the relabelling — every type** (the former counterexample, an opaque leaf of struct kind
+holding a struct value, is now compared as the leaf it is) -/
+theorem canonical_ob_any (t : Ty) (v : Val) : Spec.Protobuf.canonical (ob t) v = Spec.Protobuf.canonical t v :=
+  canonical_ob t (opaqueCanon_all t) v
+theorem canonical_ob_ov_any (t : Ty) (v : Val) : Spec.Protobuf.canonical (ob t) (ov t v) = Spec.Protobuf.canonical t v :=
+  canonical_ob_ov t (opaqueCanon_all t) v
+
+theorem canonical_ob_former_counterexample :
     let t : Ty := .named "RawMessage" (.struct .nil)
     let v : Val := .struct (.cons (.int 0) .nil)
-    Spec.Protobuf.canonical (ob t) v ≠ Spec.Protobuf.canonical t v ∧
-    Spec.Protobuf.canonical (ob t) (ov t v) ≠ Spec.Protobuf.canonical t v := by
-  simp [canonical, ob, ov, leafV, canonTy, canonTyFields, canon, canonVals]
+    Spec.Protobuf.canonical (ob t) v = Spec.Protobuf.canonical t v := canonical_ob_any _ _
 
 /-! ## 1. the reference decoder does not see the relabelling (every type) -/
 
@@ -476,11 +496,7 @@ theorem opaqueCanon_of_canonTy_ob : ∀ (t : Ty), (∀ v : Val, canonTy (ob t) v
     by_cases hn : n = "RawMessage"
     · subst hn
       simp only [opaqueCanon, if_true]
-      intro v hv
-      have := h v
-      simp only [ob, if_true] at this
-      rw [canonTy_bytes v hv, canonTy_rm t v hv] at this
-      exact this.symm
+      trivial
     · simp only [opaqueCanon, hn, if_false]
       refine opaqueCanon_of_canonTy_ob t fun v => ?_
       have := h v
@@ -548,33 +564,7 @@ theorem canonTyList_u8 : ∀ vs : Vals, canonTyList (.int .u8) vs = vs
   | .nil => by simp [canonTyList]
   | .cons v r => by simp [canonTyList, canonTy, canonTyList_u8 r]
 
-theorem LeafId_of_plainLeaf : ∀ u : Ty, plainLeaf u = true → LeafId u
-  | .named n t, h => by
-    simp only [plainLeaf] at h
-    intro v hv
-    by_cases hn : n = "RawMessage"
-    · subst hn; rw [canonTy_rm t v hv]; exact LeafId_of_plainLeaf t h v hv
-    · rw [canonTy_named n t v hn]; exact LeafId_of_plainLeaf t h v hv
-  | .slice t, h => by
-    simp only [plainLeaf] at h
-    rw [isU8_eq t h]
-    intro v hv
-    cases v with
-    | str s => cases s <;> simp [canonTy] at hv ⊢
-    | list vs =>
-      simp only [canonTy, canonTyList_u8]
-    | _ => simp [canonTy]
-  | .bytes, _ => fun v hv => canonTy_bytes v hv
-  | .bool, _ => fun v _ => by simp [canonTy]
-  | .int k, _ => fun v _ => by simp [canonTy]
-  | .f32, _ => fun v _ => by simp [canonTy]
-  | .f64, _ => fun v _ => by simp [canonTy]
-  | .str, _ => fun v _ => by simp [canonTy]
-  | .any, _ => fun v _ => by simp [canonTy]
-  | .arr n t, _ => fun v _ => by simp [canonTy]
-  | .ptr t, h => by simp [plainLeaf] at h
-  | .map k w, h => by simp [plainLeaf] at h
-  | .struct fs, h => by simp [plainLeaf] at h
+theorem LeafId_of_plainLeaf (u : Ty) (_h : plainLeaf u = true) : LeafId u := trivial
 
 mutual
 /-- decidable version of `opaqueCanon`: the underlying type of every opaque leaf is `plainLeaf` (e.g. `[]byte`) -/
@@ -658,7 +648,7 @@ example : ov exTy (.ptr (.struct (.cons .nil (.cons .nil (.cons .nil (.cons .nil
 #print axioms canonical_ob_ov
 #print axioms canonical_ob_plain
 #print axioms canonical_ob_ov_plain
-#print axioms canonical_ob_counterexample
+#print axioms canonical_ob_any
 #print axioms canonTy_ov
 #print axioms canonTy_ovF
 #print axioms canonTyFields_ov
